@@ -354,7 +354,7 @@ func c09RunRaw(in c09Ep, prog func(p *puppet.Peer)) (c09EpObs, *c09Max) {
 		opt := puppet.SessOpt{
 			WrapD:       func(c net.PacketConn) net.PacketConn { pc.PacketConn = c; return pc },
 			OnDTLCP:     func(c *dtlcp.Conn) { pc.T = c },
-			OnHandshake: func(err error) { pc.done = err == nil },
+			OnHandshake: pc.onHandshake,
 			OnFinish:    func() { pc.sample() },
 			ReadFrom:    in.ReadFrom,
 		}
